@@ -33,6 +33,8 @@ type ogen struct {
 	blocks  []string // definitions appended to the entry file (rendered at definition site!) -> kept in lib
 	lib     string
 	errFile string // file and line of the planted failure (after assembling)
+	ctxOut  string // rendering of '.' at the top level of the program
+	ctxOK   bool   // '.' is still the program's data here (not inside a body that rebinds it)
 }
 
 func htmlEsc(s string) string {
@@ -171,7 +173,7 @@ func (g *ogen) node(d int, allowFail bool) onode {
 		g.failPct = 0 // one planted failure per program
 		return g.failing()
 	}
-	k := r.Intn(15)
+	k := r.Intn(18)
 	if d <= 0 {
 		k = r.Intn(3)
 	}
@@ -198,7 +200,10 @@ func (g *ogen) node(d int, allowFail bool) onode {
 		}
 		return lit("{{if " + falsy + "}}" + g.dead(d-1).src + "{{end}}")
 	case 4: // range: once per element, in order
+		savedCtx := g.ctxOK
+		g.ctxOK = false // most of these loops rebind '.'
 		body := g.seq(d-1, false)
+		g.ctxOK = savedCtx
 		switch r.Intn(5) {
 		case 0:
 			out := ""
@@ -334,6 +339,75 @@ func (g *ogen) node(d int, allowFail bool) onode {
 			}
 			return onode{src: "{{ \"y\" -}} \n\n|", out: g.E("y") + "|", failOff: -1}
 		}
+	case 14: // '.' is restored after every construct that rebinds it, however the construct ends
+		if !g.ctxOK {
+			return g.text()
+		}
+		probe := onode{src: "[{{.}}]", out: "[" + g.ctxOut + "]", failOff: -1}
+		switch r.Intn(8) {
+		case 0:
+			return cat(onode{src: "{{range k := li}}{{k}}{{end}}", out: g.E(0) + g.E(1) + g.E(2), failOff: -1}, probe)
+		case 1:
+			return cat(onode{src: "{{ kk := 0 }}{{range kk = li}}{{.}}{{end}}", out: g.E(3) + g.E(0) + g.E(7), failOff: -1}, probe)
+		case 2:
+			return cat(onode{src: "{{range ls}}{{end}}{{range k, v := li}}{{end}}{{range ints(0, 2)}}{{end}}", failOff: -1}, probe)
+		case 3:
+			g.nfile++
+			name := fmt.Sprintf("/ctx%d.jet", g.nfile)
+			g.p.files[name] = "({{.}})"
+			return cat(onode{src: fmt.Sprintf("{{include %q ia}}", name), out: "(" + g.E(g.intVals["ia"]) + ")", failOff: -1}, probe)
+		case 4:
+			g.nblock++
+			bn := fmt.Sprintf("cblk%d", g.nblock)
+			g.lib += "{{block " + bn + "()}}<{{.}}>{{end}}"
+			return cat(onode{src: "{{yield " + bn + "() sa}}", out: "<" + g.escape(g.strVals["sa"]) + ">", failOff: -1}, probe)
+		case 5: // a failure inside a rebinding body, swallowed by try
+			return cat(onode{src: "{{try}}{{range k := li}}{{ nope }}{{end}}{{catch}}c{{end}}", out: "c", failOff: -1}, probe)
+		case 6: // ... or by isset
+			g.nfile++
+			name := fmt.Sprintf("/ctxe%d.jet", g.nfile)
+			g.p.files[name] = "{{range ls}}{{ nope }}{{end}}"
+			return cat(onode{src: fmt.Sprintf("{{ isset(exec(%q).x) }}", name), out: g.E("false"), failOff: -1}, probe)
+		default:
+			g.nfile++
+			name := fmt.Sprintf("/ctxx%d.jet", g.nfile)
+			g.p.files[name] = "{{.}}{{return 1}}"
+			return cat(onode{src: fmt.Sprintf("{{ exec(%q, sa) }}{{ includeIfExists(%q, ib) }}", name, name), out: g.E(1) + g.E(g.intVals["ib"]), failOff: -1}, probe)
+		}
+	case 15: // exec returns the value of the last return statement executed, however deeply nested earlier ones were
+		g.nfile++
+		name := fmt.Sprintf("/ret%d.jet", g.nfile)
+		a, b := r.Intn(40)+100, r.Intn(40)+200
+		var src string
+		var want int
+		switch r.Intn(5) {
+		case 0:
+			src, want = fmt.Sprintf("{{if t}}{{return %d}}{{end}}{{return %d}}", a, b), b
+		case 1:
+			src, want = fmt.Sprintf("{{range li}}{{if . == 0}}{{return %d}}{{end}}{{end}}x{{return %d}}", a, b), b
+		case 2:
+			src, want = fmt.Sprintf("{{try}}{{return %d}}{{end}}{{if zero}}{{return 1}}{{end}}{{return %d}}", a, b), b
+		case 3:
+			src, want = fmt.Sprintf("{{return %d}}{{if t}}{{return %d}}{{end}}{{range el}}{{end}}", a, b), b
+		default:
+			src, want = fmt.Sprintf("{{if t}}{{if t}}{{return %d}}{{end}}{{end}}{{if zero}}{{return %d}}{{end}}", a, b), a
+		}
+		g.p.files[name] = src
+		return onode{src: fmt.Sprintf("<{{ exec(%q) }}>", name), out: "<" + g.E(want) + ">", failOff: -1}
+	case 16: // yield arguments are evaluated in the caller's scope; defaults may use supplied parameters
+		g.nblock++
+		bn := fmt.Sprintf("pblk%d", g.nblock)
+		switch r.Intn(3) {
+		case 0:
+			g.lib += "{{block " + bn + "(sa=\"dflt\", ia=0)}}({{sa}}|{{ia}}){{end}}"
+			return onode{src: "{{yield " + bn + "(ia=ia, sa=sa)}}", out: "(" + g.escape(g.strVals["sa"]) + "|" + g.E(g.intVals["ia"]) + ")", failOff: -1}
+		case 1:
+			g.lib += "{{block " + bn + "(href, label=href)}}({{href}}|{{label}}){{end}}"
+			return onode{src: "{{yield " + bn + "(href=sa)}}", out: "(" + g.escape(g.strVals["sa"]) + "|" + g.escape(g.strVals["sa"]) + ")", failOff: -1}
+		default:
+			g.lib += "{{block " + bn + "(sa, q=1)}}({{sa}}|{{q}}){{end}}"
+			return onode{src: "{{yield " + bn + "(q=ib)}}[{{sa}}]", out: "(" + g.E("false") + "|" + g.E(g.intVals["ib"]) + ")[" + g.escape(g.strVals["sa"]) + "]", failOff: -1}
+		}
 	case 12: // isset
 		return onode{src: "{{ isset(m.k) }}{{ isset(m.nokey) }}{{ isset(np) }}{{ isset(zero, e, ff) }}{{ isset(st.P.P.A) }}{{ m.nokey | isset }}", out: g.E("true") + g.E("false") + g.E("false") + g.E("true") + g.E("false") + g.E("false"), failOff: -1}
 	}
@@ -372,6 +446,9 @@ func genOracleProgram(r *h.Rand, flavor string) (*prog, *sx.Sexp) {
 		Add(bind("m", vMapI("k", vStr("v")))).Add(bind("mz", vMapI("k", vInt(0)))).Add(bind("me", vMapI("", vStr("x"), "k", vStr("")))).
 		Add(bind("ms", vMapT("a", vT2("na<", 1, true), "b", vT2("nb", 2, false), "c", vT2("", 0, false)))).Add(bind("st", vT1(5, "B<", vSliceI(vInt(1)), vMapI("k", vInt(1)), vPtr("T1", inner), vNil())))
 	p.vars = vars
+	p.data = vStr("c<x")
+	g.ctxOut = g.escape("c<x")
+	g.ctxOK = true
 	if flavor == "errors" || flavor == "try" && r.Chance(20) {
 		g.failPct = 15
 	}
